@@ -49,6 +49,7 @@ KNOWN_EXT = {
     "concatenate", "roll", "unravel_index", "ravel_multi_index", "reshape", "meshgrid", "interp", "angle",
     "maximum", "minimum", "hypot", "arctan2", "power", "multiply", "add", "subtract", "divide", "true_divide",
     "mod", "remainder", "fmod", "floor_divide", "logical_and", "logical_or", "logical_not", "dot", "outer", "indices",
+    "greater_equal", "less", "greater", "less_equal", "equal", "not_equal",
     "sort", "argsort", "flip", "unique", "tile", "repeat", "stack", "vstack", "hstack", "nan_to_num",
     "datetime64", "timedelta64", "errstate", "dtype", "shape", "size", "ndim", "iscomplex", "isreal",
     "expand_dims", "broadcast_to", "swapaxes", "moveaxis", "take", "nonzero", "count_nonzero", "allclose",
@@ -107,7 +108,48 @@ def make_trapz(y, xcoord=None, axis=None, dx=None):
     return op("trapz", to_term(y), to_term(xcoord) if xcoord is not None else NONE_T)
 
 
+def as_trapezoid(x, axis):
+    """sum over the last axis of  diff(F) * (W[..., 1:] + W[..., :-1]) / 2  is the trapezoidal rule trapz(W, F); None otherwise"""
+    x = to_term(x)
+    ax = to_term(axis) if axis is not None else NONE_T
+    if isinstance(ax, sp.Tuple) and len(ax.args) == 2 and ax.args[0] == Str("axis"):
+        ax = ax.args[1]
+    if ax != sp.Integer(-1):
+        return None
+    hi_s, lo_s = op("slc", sp.Integer(1), NONE_T, NONE_T), op("slc", NONE_T, sp.Integer(-1), NONE_T)
+
+    def last_slice(n):
+        if fname(n) != "item":
+            return None
+        ix = n.args[1]
+        last = ix.args[-1] if isinstance(ix, sp.Tuple) and ix.args else ix
+        lead = list(ix.args[:-1]) if isinstance(ix, sp.Tuple) else []
+        if any(l != T.ELLIPSIS_T for l in lead):
+            return None
+        return last
+    his = [n for n in sp.preorder_traversal(x) if last_slice(n) == hi_s]
+    los = [n for n in sp.preorder_traversal(x) if last_slice(n) == lo_s]
+    for A in his:
+        for B in los:
+            if A.args[0] != B.args[0]:
+                continue
+            W = A.args[0]
+            # the step: np.diff(F), or F[1:] - F[:-1]
+            steps = [n for n in sp.preorder_traversal(x) if fname(n) == "diff" and n.args[1:] == (NONE_T, NONE_T)]
+            for D in steps:
+                try:
+                    if sp.expand(x - D * (A + B) / 2) == 0:
+                        return make_trapz(W, D.args[0])
+                except Exception:
+                    pass
+    return None
+
+
 def reduce_op(name, x, axis=None, skipna=None):
+    if name == "sum" and skipna is None:
+        tz = as_trapezoid(x, axis)
+        if tz is not None:
+            return tz
     sk = None
     if skipna is True or skipna == TRUE_T:
         sk = True
@@ -253,6 +295,8 @@ def call_numpy(it, tail, args, kwargs, env, node, chain):
         return op("pymod", t[0], t[1])
     if tail == "floor_divide":
         return op("floordiv", t[0], t[1])
+    if tail in ("greater_equal", "less", "greater", "less_equal", "equal", "not_equal") and len(t) >= 2:
+        return T.CMP({"greater_equal": "ge", "less": "lt", "greater": "gt", "less_equal": "le", "equal": "eq", "not_equal": "ne"}[tail], t[0], t[1])
     if tail == "logical_and":
         return AND(t[0], t[1])
     if tail == "logical_or":
@@ -498,7 +542,7 @@ def call_term_method(it, recv, name, args, kwargs, env, node):
     if name == "isel":
         out = recv
         for k, v in sorted(_dim_items(args, kwargs), key=lambda kv: str(kv[0])):
-            out = op("isel", out, to_term(k), to_term(v))
+            out = op("isel", out, to_term(k), canon_index(to_term(v)))
         return out
     if name == "sel":
         out = recv
